@@ -18,7 +18,7 @@ ASSUME = [common.TRUSTED, "independent verification uses crypto/ed25519, crypto/
           "an event is judged only when the reference decoder finds the signature/key slots of the mutated bytes where the driver used them"]
 META = {
     "level": "model_checking",
-    "technique": "symbolic (Dolev-Yao) model of signing and offline authorisation in TLA+ (Crypto.tla) with adversary actions, model-checked by TLC over all adversary sequences up to length 4 (and a no-authorisation-check negative control); TLC-computed signed-structure skeletons with slots, real keys, one adversary derivation each replayed into the library; verification results validated by TLC against an independent verification of the raw bytes",
+    "technique": "symbolic (Dolev-Yao) model of signing and offline authorisation in TLA+ (Crypto.tla) with adversary actions, model-checked by TLC over all adversary sequences up to length 4 (and a no-authorisation-check negative control); TLC-computed signed-structure skeletons with slots, real keys, one adversary derivation each replayed into the library; verification results validated by TLC against an independent verification of the raw bytes (adversary steps now include pair swaps, insertions into certificate payloads, forgery through a legacy LeaseSet's own signing_key field, and transient-key re-signing after an offline-block edit; the model has the offline expiry, the revocation key, a leaked transient key and two flawed verifiers that TLC refutes)",
     "text": ("TLC shows on the symbolic model that a verifier which checks the closing signature under the selected key AND the offline "
              "authorisation accepts only authentic structures under every adversary sequence up to depth 4, and that dropping the authorisation "
              "check admits the forged-offline attack. The real verifiers are then confronted with concrete forgeries of every class for every "
